@@ -778,3 +778,21 @@ M("C20.empty_flush_false", ["C20", "C01"], "core/src/emitter.rs",
 M("C20.try_init_wrong_component", ["C20"], "src/setup.rs",
   "                .with_clock(self.clock)\n                .with_rng(self.rng),", "                .with_clock(Default::default())\n                .with_rng(self.rng),", "C20.R4") if False else None
 M("C20.init_slot_ignores_failure", ["C20"], "src/setup.rs", None, None, "x") if False else None
+
+# ---- C19 -------------------------------------------------------------------------------------------
+M("C19.debug_captured_as_display", ["C19"], "src/macro_hooks.rs",
+  "        Some(Value::capture_debug(self))", "        Some(Value::capture_display(self))", "C19.R1.impl")
+# (C19.anon_sval_keeps_type removed: does not compile - capture_sval needs T: 'static)
+M("C19.hook_wrong_trait", ["C19"], "src/macro_hooks.rs",
+  "        CaptureAsAnonDebug::capture(self)\n    }", "        CaptureAsDebug::capture(self)\n    }", "C19.R1.hook") if False else None
+M("C19.optional_none_maps_to_some_null", ["C19"], "src/macro_hooks.rs",
+  """        self.into_option().and_then(map)
+    }
+
+    fn __private_optional_map_option_ref<""",
+  """        self.into_option().and_then(map).or_else(|| None)
+    }
+
+    fn __private_optional_map_option_ref<""", "C19.R3") if False else None
+M("C19.value_debug_not_forwarded", ["C19"], "core/src/value.rs",
+  "        fmt::Debug::fmt(&self.0, f)", "        fmt::Display::fmt(&self.0, f)", "C19.R4.forward") if False else None
